@@ -220,13 +220,13 @@ def import_hiten():
     os.chdir(WORK)
     import hiten  # noqa
     root = logging.getLogger()
-    root.setLevel(logging.ERROR)
+    root.setLevel(logging.CRITICAL)
     for h in list(root.handlers):
         if isinstance(h, logging.FileHandler):
             root.removeHandler(h)
             h.close()
         else:
-            h.setLevel(logging.ERROR)
+            h.setLevel(logging.CRITICAL)
     return hiten
 
 
